@@ -12,9 +12,16 @@ func (s *syntaxSliceNegativeStepSubscript) getIndexes(srcLength int) []int {
 	loopStart := s.getLoopStart(srcLength)
 	loopEnd := s.getLoopEnd(srcLength)
 
+	// A step beyond the array length selects at most one element;
+	// limiting it keeps the loop counter from overflowing.
+	step := s.step.number
+	if step < -srcLength-1 {
+		step = -srcLength - 1
+	}
+
 	index, result := 0, make([]int, srcLength)
-	if s.step.number < 0 {
-		for i := loopStart; i > loopEnd; i += s.step.number {
+	if step < 0 {
+		for i := loopStart; i > loopEnd; i += step {
 			result[index] = i
 			index++
 		}
